@@ -147,6 +147,7 @@ class Closure:
     def __init__(self, node, env, mod, name='<lambda>'):
         self.node, self.env, self.mod, self.name = node, env, mod, name
         self.attrs = {}
+        self.defaults = None      # (positional defaults, kw-only defaults) evaluated when the def/lambda was executed
 
     def __repr__(self):
         return '<closure %s@%d>' % (self.name, getattr(self.node, 'lineno', 0))
@@ -425,7 +426,7 @@ class Executor:
                 return f.fn(self, *args, **kwargs)
             return f.fn(*args, **kwargs)
         if isinstance(f, Closure):
-            return self.apply(f.node, f.env, f.mod, args, kwargs, f.name)
+            return self.apply(f.node, f.env, f.mod, args, kwargs, f.name, defaults=f.defaults)
         if isinstance(f, FuncRef):
             pol = self.policy(f)
             if pol == 'inline':
@@ -439,7 +440,7 @@ class Executor:
             return self.builtins[f.__name__].fn(*args, **kwargs)
         raise Unsupported('call of %r' % (f,))
 
-    def bind(self, fnode, mod, args, kwargs, env_for_defaults):
+    def bind(self, fnode, mod, args, kwargs, env_for_defaults, evaluated=None):
         """Python argument binding against the real signature.  Returns dict name->value."""
         a = fnode.args
         names = [x.arg for x in a.posonlyargs + a.args]
@@ -467,24 +468,24 @@ class Executor:
         for i, n in enumerate(names):
             if n not in out:
                 if i >= off:
-                    out[n] = self.eval(defaults[i - off], env_for_defaults, mod)
+                    out[n] = evaluated[0][i - off] if evaluated is not None else self.eval(defaults[i - off], env_for_defaults, mod)
                 else:
                     raise PyRaise('TypeError', 'missing argument %s for %s' % (n, getattr(fnode, 'name', 'lambda')))
-        for x, d in zip(a.kwonlyargs, a.kw_defaults):
+        for j, (x, d) in enumerate(zip(a.kwonlyargs, a.kw_defaults)):
             if x.arg not in out:
                 if d is None:
                     raise PyRaise('TypeError', 'missing kw-only argument %s' % x.arg)
-                out[x.arg] = self.eval(d, env_for_defaults, mod)
+                out[x.arg] = evaluated[1][j] if evaluated is not None else self.eval(d, env_for_defaults, mod)
         return out
 
-    def apply(self, fnode, closure_env, mod, args, kwargs, name):
+    def apply(self, fnode, closure_env, mod, args, kwargs, name, defaults=None):
         self.call_depth += 1
         if self.call_depth > 60:
             raise Unsupported('call depth')
         try:
             defenv = closure_env if closure_env is not None else Env(None, mod)
             local = Env(closure_env, mod)
-            local.vars.update(self.bind(fnode, mod, args, kwargs, defenv))
+            local.vars.update(self.bind(fnode, mod, args, kwargs, defenv, defaults))
             local.locals_declared = _assigned_names(fnode)
             if isinstance(fnode, ast.Lambda):
                 return self.eval(fnode.body, local, mod)
@@ -667,7 +668,9 @@ class Executor:
             raise PyRaise('AssertionError', '', st)
 
     def st_FunctionDef(self, st, env, mod):
-        env.vars[st.name] = Closure(st, env, mod, st.name)
+        c = Closure(st, env, mod, st.name)
+        c.defaults = self._eval_defaults(st, env, mod)
+        env.vars[st.name] = c
 
     def st_Try(self, st, env, mod):
         try:
@@ -917,7 +920,13 @@ class Executor:
         return Starred(self.eval(e.value, env, mod))
 
     def ev_Lambda(self, e, env, mod):
-        return Closure(e, env, mod)
+        c = Closure(e, env, mod)
+        c.defaults = self._eval_defaults(e, env, mod)
+        return c
+
+    def _eval_defaults(self, fnode, env, mod):
+        a = fnode.args
+        return ([self.eval(d, env, mod) for d in a.defaults], [None if d is None else self.eval(d, env, mod) for d in a.kw_defaults])
 
     def ev_IfExp(self, e, env, mod):
         if self.truth(self.eval(e.test, env, mod)):
@@ -990,6 +999,32 @@ class Executor:
     def binop(self, op, a, b):
         a, b = exact(a), exact(b)
         name = type(op).__name__
+        # IEEE infinity against finite reals (math.inf / numpy.inf): the few rules the analysed code relies on
+        inf_a, inf_b = _inf_sign(a), _inf_sign(b)
+        if (inf_a or inf_b) and not (inf_a and inf_b) and name in ('Add', 'Sub', 'Mult', 'Div'):
+            fin = b if inf_a else a
+            if is_scalar(fin) and not isinstance(fin, bool):
+                sgn = inf_a or inf_b
+                if name == 'Add':
+                    return Tm('float:inf' if sgn > 0 else 'float:-inf')
+                if name == 'Sub':
+                    sgn = sgn if inf_a else -sgn
+                    return Tm('float:inf' if sgn > 0 else 'float:-inf')
+                if name == 'Div' and inf_b:
+                    return 0
+                pos = (fin > 0) if is_num(fin) else None
+                if pos is None:
+                    fz = to_real(fin)
+                    if self.ctx.decide(fz > 0):
+                        pos = True
+                    elif self.ctx.decide(fz < 0):
+                        pos = False
+                    else:
+                        raise PyRaise('FloatingPointError', 'inf * 0 or inf / 0')
+                elif is_num(fin) and fin == 0:
+                    raise PyRaise('FloatingPointError', 'inf * 0 or inf / 0')
+                sgn = sgn if pos else -sgn
+                return Tm('float:inf' if sgn > 0 else 'float:-inf')
         if isinstance(a, Tm) or isinstance(b, Tm):
             return Tm('op:' + name, a, b)
         if isinstance(a, str) and name == 'Mod':
@@ -1101,6 +1136,18 @@ class Executor:
     def compare(self, op, a, b):
         a, b = exact(a), exact(b)
         name = type(op).__name__
+        inf_a, inf_b = _inf_sign(a), _inf_sign(b)
+        if (inf_a or inf_b) and name in ('Eq', 'NotEq', 'Lt', 'LtE', 'Gt', 'GtE') and all(x or (is_scalar(y) and not isinstance(y, bool)) for x, y in ((inf_a, a), (inf_b, b))):
+            va = inf_a * 2 if inf_a else 0      # any finite real lies strictly between -inf and +inf
+            vb = inf_b * 2 if inf_b else 0
+            if not inf_a and not inf_b:
+                pass
+            else:
+                if not inf_a:
+                    va = 0
+                if not inf_b:
+                    vb = 0
+                return {'Eq': va == vb, 'NotEq': va != vb, 'Lt': va < vb, 'LtE': va <= vb, 'Gt': va > vb, 'GtE': va >= vb}[name]
         if name in ('Is', 'IsNot'):
             if a is None or b is None:
                 r = (a is None and b is None)
@@ -2037,7 +2084,9 @@ class Executor:
             items = ex.iterate(x)
             if all(is_num(i) or isinstance(i, str) for i in items) and not k.get('key'):
                 return VList(sorted(items, reverse=bool(k.get('reverse', False))))
-            if not k.get('key') and all(isinstance(i, tuple) and i and is_num(i[0]) for i in items) and len({i[0] for i in items}) == len(items):
+            def conc(v):
+                return is_num(v) or isinstance(v, (str, float)) or (isinstance(v, tuple) and all(conc(c) for c in v))
+            if not k.get('key') and all(isinstance(i, tuple) and i and conc(i[0]) for i in items) and len({i[0] for i in items}) == len(items):
                 # tuples ordered by distinct concrete first components: the remaining components never get compared
                 return VList(sorted(items, key=lambda t: t[0], reverse=bool(k.get('reverse', False))))
             if k.get('key'):
@@ -2114,6 +2163,16 @@ class Executor:
             out[n] = Tm('exc-class:' + n)
         out['True'], out['False'], out['None'] = True, False, None
         return out
+
+
+def _inf_sign(x):
+    if isinstance(x, Tm) and x.op == 'float:inf':
+        return 1
+    if isinstance(x, Tm) and x.op == 'float:-inf':
+        return -1
+    if isinstance(x, float) and x in (float('inf'), float('-inf')):
+        return 1 if x > 0 else -1
+    return 0
 
 
 def is_scalar(x):
